@@ -316,6 +316,7 @@ def fstring_spec_pattern(quote: str) -> str:
 
 tabsize = 8
 MAXINDENT = 100  # CPython's limit on the depth of the indentation stack (the outermost level counts)
+MAXLEVEL = 200  # and on the depth of bracket nesting
 
 
 class TokenError(Exception):
@@ -582,6 +583,9 @@ def next_psuedo_matches(state: TokenizerState) -> TokenInfo | None:
             epos, state.pos = (state.lnum, end), end
         if token[-1] in "([{":
             state.parenlev += 1
+            if state.parenlev > MAXLEVEL:  # as in CPython
+                args = ("<tokenize>", state.lnum, start + 1, state.line, state.lnum, start + 1)
+                raise SyntaxError("too many nested parentheses", args)
         elif token in ")]}":
             if state.in_braces() and state.at_parenlev():
                 state.pop_mode((state.lnum, end))
